@@ -70,6 +70,11 @@ def mac_bytes(m):
     return bytes(int(x, 16) for x in m.split('-'))
 
 
+def rate_text(r):
+    """a traffic rate as text: whole numbers without a fraction, others with the digits that give the same IEEE float back"""
+    return str(int(r)) if float(r) == int(r) else repr(float(r))
+
+
 def ext_community_bytes(e):
     k = e['kind']
     if k in ('rt0', 'ro0'):
@@ -125,7 +130,7 @@ def ext_text(e):
     if k == 'redirect-nh':
         return 'redirect-nexthop:%s:%d' % (e['ip'], e['copy'])
     if k == 'traffic-rate':
-        return 'traffic-rate:%d:%d' % (e['asn'], e['rate'])
+        return 'traffic-rate:%d:%s' % (e['asn'], rate_text(e['rate']))
     if k == 'traffic-action':
         return 'traffic-action:S:%d,T:%d' % (e['s'], e['t'])
     if k == 'traffic-marking':
@@ -158,7 +163,7 @@ def ext_construct(e):
     if k == 'redirect-nh':
         return [code, e['ip'], e['copy']]
     if k == 'traffic-rate':
-        return [code, '%d:%d' % (e['asn'], e['rate'])]
+        return [code, '%d:%s' % (e['asn'], rate_text(e['rate']))]
     if k == 'traffic-action':
         return [code, {'s': e['s'], 't': e['t']}]
     if k == 'traffic-marking':
